@@ -8,6 +8,7 @@ def run(ctx):
                 "timestamp set through the public struct; non-trivial = steps that change state (as the oracle expects)")
     sweeps.run_sweep(ctx, "c14", [], "C14")
     sweeps.run_sweep(ctx, "c14h", [], "C14")        # two-step histories
+    sweeps.run_sweep(ctx, "c14", [], "C14", flavour="asan-uchar", sanitizer_is_violation=True)     # plain char unsigned (ARM-class ABIs)
     sweeps.run_sweep(ctx, "c14", [], "C14", flavour="msan", sanitizer_is_violation=True)      # decisions on uninitialised table cells
     rep.exhaustive = True
     rep.need("steps", rep.counters.get("sweep_c14_cases", 0), 150000)
